@@ -270,6 +270,18 @@ def caller_owned_inputs(case: dict[str, Any], cfgd: dict[str, Any], ctx: Any, cf
                 continue
             with_objects[section] = obj
             handed.append((section, obj, obj.model_copy(deep=True)))
+            # a section validated on its own is a configuration object like any other: canonical as far as it can know
+            if section == "gradient":
+                p_n, pmin = cfgd["gradient"].get("number_of_perturbations", 5), cfgd["gradient"].get("perturbation_min_success")
+                check(obj.perturbation_min_success == (p_n if pmin is None else min(pmin, p_n)), "clamp",
+                      f"GradientConfig validated on its own: perturbation_min_success {obj.perturbation_min_success} for {pmin} / P={p_n}", case)
+            if section == "realizations":
+                r_n, rmin = case["R"], cfgd["realizations"].get("realization_min_success")
+                check(obj.realization_min_success == (r_n if rmin is None else min(rmin, r_n)), "clamp",
+                      f"RealizationsConfig validated on its own: realization_min_success {obj.realization_min_success} for {rmin} / R={r_n}", case)
+                check(abs(float(np.sum(obj.weights)) - 1.0) <= 1e-12, "normalize", "RealizationsConfig validated on its own: weights not normalized", case)
+            if section == "objectives":
+                check(abs(float(np.sum(obj.weights)) - 1.0) <= 1e-12, "normalize", "ObjectiveFunctionsConfig validated on its own: weights not normalized", case)
     try:
         first = EnOptConfig.model_validate(with_objects, context=ctx)
         second = EnOptConfig.model_validate(with_objects, context=ctx)
@@ -451,6 +463,15 @@ def hypothesis_shard(item: dict[str, Any]) -> Collector:
         elif inv == 15:  # noqa: PLR2004
             case["invalid"] = "sampler index beyond the configured samplers"
             config["gradient"]["samplers"] = [len(config.get("samplers", [0]))] * n
+        elif inv == 16 and n > 1:  # noqa: PLR2004
+            case["invalid"] = "enumeration values given as a matrix"
+            field = draw(st.sampled_from(["boundary_types", "perturbation_types", "types"]))
+            shape = draw(st.sampled_from(["row", "column"]))
+            value = [[1] * n] if shape == "row" else [[1] for _ in range(n)]
+            if field == "types":
+                config["variables"]["types"] = value
+            else:
+                config["gradient"][field] = value
         return case
 
     def body(case: dict[str, Any]) -> None:
